@@ -286,6 +286,7 @@ def correspondence(ctx):
     probe_role_limits(ctx, nsgenv)
     probe_switches(ctx, nsgenv, CR)
     probe_goal(ctx, nsgenv, CR)
+    probe_required_players(ctx, nsgenv)
     # ---- dynamic addresses: the configured start position is what the game uses for agents joining after re-labellings
     from props import dynprobe
     dynprobe.run(ctx, "C19")
@@ -622,6 +623,71 @@ def probe_goal(ctx, nsgenv, CR):
     ctx.coverage["goal_probe"] = stats
 
 
+def probe_required_players(ctx, nsgenv):
+    """required_players takes the configured value for EVERY episode: with N required, N agents join (nobody is confirmed before
+    the N-th), one leaves, a remaining agent asks for a reset - the new episode must not start (no RESET_DONE) before a
+    replacement has joined; with the key absent one player is enough."""
+    from nsgenv import msg
+    stats = {"configurations": 0}
+    for required in (None, 1, 2, 3):
+        cfg = nsgenv.base_config("scenario1_small")
+        if required is None:
+            cfg["env"].pop("required_players", None)
+        else:
+            cfg["env"]["required_players"] = required
+        n = required or 1
+        A = cfg["coordinator"]["agents"]["Attacker"]
+        A["max_steps"] = 2
+        A["goal"]["known_data"] = {}
+        A["goal"]["known_hosts"] = ["1.1.1.1"]
+        replay = {"kind": "required_players", "required_players": required}
+        try:
+            d = nsgenv.start(cfg)
+        except Exception as e:
+            ctx.violations.append({"key": "coordinator does not start (required_players)", "what": f"{replay}: {type(e).__name__}: {e}", "replay": replay})
+            continue
+        stats["configurations"] += 1
+        try:
+            g = d.g
+            status = lambda a: [json.loads(r[:-3].decode()).get("status", "") for r in d.new_output(a)]
+            agents = [("10.3.5.%d" % (i + 1), 500 + i) for i in range(n)]
+            for i, a in enumerate(agents):
+                d.connect(a); d.settle()
+                d.send(a, nsgenv.join("p%d" % i, "Attacker")); d.settle()
+                got = {x: status(x) for x in agents[:i + 1]}
+                confirmed = [x for x, s_ in got.items() if any("CREATED" in t for t in s_)]
+                if i + 1 < n and confirmed:
+                    ctx.violations.append({"key": f"game starts with fewer than required_players={required}", "what": f"{replay}: {len(confirmed)} agent(s) were confirmed when only {i + 1} of {n} had joined", "replay": replay})
+                if i + 1 == n and len(confirmed) != (n if n == 1 else len([x for x in agents])) and n == 1:
+                    ctx.violations.append({"key": "single required player not confirmed", "what": f"{replay}: the only required player was not confirmed: {got}", "replay": replay})
+            if n >= 2:
+                gone = agents[-1]
+                d.eof(gone); d.settle()
+                stay = agents[0]
+                d.send(stay, msg("ResetGame")); d.settle()
+                for x in agents[1:-1]:
+                    d.send(x, msg("ResetGame")); d.settle()
+                early = [x for x in agents[:-1] if any("RESET_DONE" in t for t in status(x))]
+                if early:
+                    ctx.violations.append({"key": f"a new episode starts with fewer than required_players={required}",
+                                           "what": f"{replay}: one of {n} players left; the remaining {n - 1} asked for a reset and {len(early)} got RESET_DONE while only {len(g.agents)} player(s) were in the game - the configured number of required players is not honoured for later episodes",
+                                           "replay": replay})
+                newcomer = ("10.3.5.99", 599)
+                d.connect(newcomer); d.settle()
+                d.send(newcomer, nsgenv.join("late", "Attacker")); d.settle()
+                done = [x for x in agents[:-1] if any("RESET_DONE" in t for t in status(x))]
+                if not early and len(done) != n - 1:
+                    ctx.violations.append({"key": "reset not confirmed once the required players are back", "what": f"{replay}: after the replacement joined {len(done)} of {n - 1} waiting agents got RESET_DONE; {d.task_errors[:1]}", "replay": replay})
+            if d.task_errors:
+                ctx.violations.append({"key": "task died in the required-players probe", "what": f"{replay}: {d.task_errors[:1]}", "replay": replay})
+        except Exception as e:
+            import traceback
+            ctx.stage_errors.append((f"required players probe {replay}", f"{type(e).__name__}: {e}\n{traceback.format_exc()[-500:]}"))
+        finally:
+            d.close()
+    ctx.coverage["required_players_probe"] = stats
+
+
 def probe_shipped(ctx, nsgenv, CR):
     """The shipped configuration: Defender goal known_blocks {213.47.23.195: 'all_attackers'}."""
     path = os.path.join(CK.REPO, "AIDojoCoordinator", "netsecenv_conf.yaml")
@@ -663,6 +729,15 @@ def replay(ctx, payload):
         nsgenv, WL, WR, CR = _imports()
         c2 = CK.Ctx("C19", "quick", 1)
         probe_role_limits(c2, nsgenv)
+        for v in c2.violations:
+            print(v["what"])
+        if c2.violations:
+            print("VIOLATION property=C19 replay=(this file)")
+        return 1 if c2.violations else 0
+    if payload.get("kind") == "required_players":
+        nsgenv, WL, WR, CR = _imports()
+        c2 = CK.Ctx("C19", "quick", 1)
+        probe_required_players(c2, nsgenv)
         for v in c2.violations:
             print(v["what"])
         if c2.violations:
